@@ -662,6 +662,16 @@ func (s *seqRunner) stateKey() string {
 
 func (s *seqRunner) close() { s.r.Close() }
 
+func hash128(s string) [2]uint64 {
+	h1, h2 := uint64(14695981039346656037), uint64(0x9e3779b97f4a7c15)
+	for i := 0; i < len(s); i++ {
+		h1 = (h1 ^ uint64(s[i])) * 1099511628211
+		h2 = (h2 + uint64(s[i]) + 1) * 0xff51afd7ed558ccd
+		h2 ^= h2 >> 29
+	}
+	return [2]uint64{h1, h2}
+}
+
 // ---- BFS driver ----
 
 type seqParams struct {
@@ -696,7 +706,7 @@ func seqExplore(res *Result, raw json.RawMessage, job *Job) {
 		kinds[k] = true
 	}
 	viol := map[string]*Violation{}
-	seen := map[string]struct{}{}
+	seen := map[[2]uint64]struct{}{} // 128-bit hashes of canonical state keys (a full key is ~0.5 KB; millions of states)
 	prefixes := p.Prefixes
 	if len(prefixes) == 0 {
 		prefixes = [][]string{nil}
@@ -706,7 +716,7 @@ func seqExplore(res *Result, raw json.RawMessage, job *Job) {
 	for _, pre := range prefixes {
 		frontier = append(frontier, item{pre})
 	}
-	run := func(ops []string, newFrom int) (string, bool) {
+	run := func(ops []string, newFrom int) ([2]uint64, bool) {
 		defer Progress.Add(1)
 		s := newSeqRunner(p.Cfg)
 		s.probe = p.Probe
@@ -752,7 +762,7 @@ func seqExplore(res *Result, raw json.RawMessage, job *Job) {
 		if len(res.Samples) < 3 && (res.Executions == 5 || res.Executions == 500 || res.Executions == 5000) {
 			res.Samples = append(res.Samples, map[string]any{"cfg": p.Cfg.String(), "ops": ops, "last_result": obs})
 		}
-		key := s.stateKey()
+		key := hash128(s.stateKey())
 		if p.Persist != nil && !bad {
 			if _, dup := seen[key]; !dup {
 				s.step = len(ops)
@@ -818,7 +828,7 @@ func seqExplore(res *Result, raw json.RawMessage, job *Job) {
 	res.ByCost[fmt.Sprintf("depth<=%d", depthDone)] = res.Executions
 	res.ObsHashes = nil
 	for k := range seen {
-		res.ObsHashes = append(res.ObsHashes, hashObs([]string{k}))
+		res.ObsHashes = append(res.ObsHashes, k[0])
 		if len(res.ObsHashes) >= 2048 {
 			break
 		}
